@@ -24,6 +24,9 @@ pub enum Step {
     Ok,
     /// fine, but do not expand the successor (outside the property's scope / bound)
     Prune,
+    /// violations that are listed as known findings: recorded (with this history), and the successor is still
+    /// expanded so that a known finding never hides what lies behind it
+    Findings(Vec<Viol>),
 }
 
 pub struct Viol {
@@ -154,7 +157,7 @@ pub fn rebuild<M: Model>(m: &M, hist: &[M::Action]) -> Result<M::Sys, String> {
     let mut sys = m.init();
     for (i, a) in hist.iter().enumerate() {
         match guarded_apply(m, &mut sys, a) {
-            Ok(Step::Ok) => {}
+            Ok(Step::Ok) | Ok(Step::Findings(_)) => {}
             Ok(Step::Prune) => return Err(format!("replayed prefix step {i} pruned: {a:?}")),
             Err(v) => return Err(format!("replayed prefix step {i} violated {}: {}", v.signature, v.what)),
         }
@@ -281,6 +284,13 @@ impl Explorer {
                                 h.push(a.clone());
                                 match guarded_apply(m, &mut sys, a) {
                                     Ok(Step::Ok) => {
+                                        let hash = hash128(&m.canon(&sys));
+                                        res.succs.push((h, hash));
+                                    }
+                                    Ok(Step::Findings(vs)) => {
+                                        for v in vs {
+                                            res.viols.push((v, h.clone()));
+                                        }
                                         let hash = hash128(&m.canon(&sys));
                                         res.succs.push((h, hash));
                                     }
@@ -415,8 +425,15 @@ impl Explorer {
 pub fn replay_actions<M: Model>(m: &M, actions: &[M::Action], probe: bool) -> Result<String, String> {
     let mut sys = m.init();
     let mut log = String::new();
+    let mut failed = false;
     for (i, a) in actions.iter().enumerate() {
         match guarded_apply(m, &mut sys, a) {
+            Ok(Step::Findings(vs)) => {
+                for v in &vs {
+                    log.push_str(&format!("step {i}: {a:?} VIOLATION(known finding) [{}] {}\n", v.signature, v.what));
+                }
+                failed = true;
+            }
             Ok(_) => log.push_str(&format!("step {i}: {a:?} ok\n")),
             Err(v) => {
                 log.push_str(&format!("step {i}: {a:?} VIOLATION [{}] {}\n", v.signature, v.what));
@@ -436,6 +453,9 @@ pub fn replay_actions<M: Model>(m: &M, actions: &[M::Action], probe: bool) -> Re
                 return Err(log);
             }
         }
+    }
+    if failed {
+        return Err(log);
     }
     Ok(log)
 }
